@@ -111,6 +111,19 @@ fn g_step<G: Grp>(rng: &mut StdRng, out: &mut Out, regs: &mut [Option<G>; NG], k
                 ks[d] = if sub { ks[a] - ks[bb] } else { ks[a] + ks[bb] };
                 g_obs(&regs[..], base, d, fresh(ks[d]))
             });
+            if !sub && a != bb && d != a && d != bb && choice == 1 {
+                // the commuted sum into another register: the same element, usually another representative (z vs -z);
+                // the == row then relates the two
+                let d2 = (0..NG).find(|i| *i != d && *i != a && *i != bb);
+                if let Some(d2) = d2 {
+                    out.call("m.gadd", json!({"G": g, "d": base + d2, "a": base + bb, "b": base + a}), || {
+                        let (x, y) = (regs[bb].unwrap(), regs[a].unwrap());
+                        regs[d2] = Some(x + y);
+                        ks[d2] = ks[a] + ks[bb];
+                        g_obs(&regs[..], base, d2, fresh(ks[d2]))
+                    });
+                }
+            }
         }
         (6, Some(a), _) => {
             out.call("m.gneg", json!({"G": g, "d": base + d, "a": base + a}), || {
